@@ -1005,7 +1005,8 @@ fn check_window(cx: &Ctx17, w: &Window, notes: &mut Notes) -> Result<(), String>
         return Err(format!("the caret is left of the text of line {l}"));
     }
     let d = caret_abs - tcol;
-    if al.is_empty() {
+    // the renderer trimmed the line itself ("..."): only the character above the caret is compared
+    let weak = |notes: &mut Notes| -> Result<(), String> {
         // the renderer trimmed the line itself ("..."): only compare the character above the caret
         let mut col = 0;
         let mut above = None;
@@ -1041,6 +1042,9 @@ fn check_window(cx: &Ctx17, w: &Window, notes: &mut Notes) -> Result<(), String>
             notes.caret_skipped.push("renderer-trimmed line, column past the text");
         }
         return Ok(());
+    };
+    if al.is_empty() {
+        return weak(notes);
     }
     if w.secondary {
         // hand-written window: the caret offset is counted in characters; only comparable with the
@@ -1078,6 +1082,13 @@ fn check_window(cx: &Ctx17, w: &Window, notes: &mut Notes) -> Result<(), String>
     if !ok && al.len() >= ALIGN_CAP {
         notes.caret_skipped.push("too many ways to align a repetitive line");
         return Ok(());
+    }
+    if !ok && !w.secondary && renderer_trimmed(shown) && sw(&lm.full) >= 100 {
+        // the shown text also occurs elsewhere in a line that is wide enough for the renderer's
+        // own trimming: its `...` marker cannot be told from dots of the input (libFuzzer
+        // artifact of a thorough sweep), so the line is judged like a trimmed one
+        notes.trimmed_by_renderer = true;
+        return weak(notes);
     }
     if !ok {
         let above: String = {
